@@ -55,6 +55,8 @@ func init() {
 		"unicode/utf8.DecodeRuneInString":  extDecodeRuneInString,
 		"unicode/utf8.RuneCountInString":   extRuneCountInString,
 		"unicode.IsLetter":                 extIsLetter,
+		"unicode.Is":                       extUnicodeIs,
+		"unicode.In":                       extUnicodeIn,
 		"unicode.IsDigit":                  extIsDigit,
 		"unicode.IsSpace":                  extIsSpace,
 		"regexp.MustCompile":               extRegexpMustCompile,
@@ -727,6 +729,21 @@ func extParseInt(fr *frame, args []value) value {
 		// term parses to that integer (the harness keeps it inside int64).
 		if len(s.Parts) == 1 && s.Parts[0].Kind == PInt && (base == 0 || base == 10) && bits == 64 {
 			return tuple{SymInt{T: s.Parts[0].Lit, Kind: types.Int64}, iface{}}
+		}
+		// a narrower result: in range it is the integer, out of range
+		// ParseInt returns the nearest bound and a range error
+		if len(s.Parts) == 1 && s.Parts[0].Kind == PInt && (base == 0 || base == 10) && (bits == 8 || bits == 16 || bits == 32) {
+			t := s.Parts[0].Lit
+			lo, hi := -(int64(1) << uint(bits-1)), int64(1)<<uint(bits-1)-1
+			if fr.i.ctx.Decide(fmt.Sprintf("(and (>= %s %s) (<= %s %s))", t, intLit(lo), t, intLit(hi))) {
+				return tuple{SymInt{T: t, Kind: types.Int64}, iface{}}
+			}
+			bound := hi
+			if fr.i.ctx.Decide(fmt.Sprintf("(< %s 0)", t)) {
+				bound = lo
+			}
+			msg := mkRope([]Part{{Kind: PLit, Lit: "strconv.ParseInt: parsing \""}, s.Parts[0], {Kind: PLit, Lit: "\": value out of range"}})
+			return tuple{bound, fr.i.eng.errorValue(msg)}
 		}
 	}
 	panic(Inconclusive{"strconv.ParseInt of a symbolic string that is not a canonical number"})
